@@ -9,6 +9,7 @@ from . import fmt, gen
 
 RECORD_LEVEL = {"drop_record", "bad_byte", "qual_len", "drop_line", "dup_line", "bad_lead", "mate_missing", "mate_rename", "flip_base", "blank_line"}
 BYTE_LEVEL = {"truncate", "gz_flip"}
+PLAIN_LEVEL = {"truncate_plain"}  # the producer was cut short, the compressor finished its stream properly
 
 
 def _split_lines(plain):
@@ -90,16 +91,22 @@ def apply(case, files):
     paths = gen.input_paths(case)
     fastq = case["fmt"] == "fastq"
     interleaved = inp["layout"] == "interleaved"
-    rec_faults = [f for f in fl if f["kind"] in RECORD_LEVEL]
+    bam = bool(inp.get("bam"))
+    rec_faults = [f for f in fl if f["kind"] in RECORD_LEVEL and not bam]
+    plain_faults = [f for f in fl if f["kind"] in PLAIN_LEVEL]
     out = dict(files)
-    if rec_faults:
+    if rec_faults or plain_faults:
         plains = gen.plain_streams(case)
         for f in rec_faults:
             i = min(f.get("file", 0), len(plains) - 1)
             plains[i] = _apply_record_fault(f, plains[i], fastq, interleaved)
+        plains = [gen.style_plain(case, pl) for pl in plains]
+        for f in plain_faults:
+            i = min(f.get("file", 0), len(plains) - 1)
+            plains[i] = plains[i][: max(0, min(f["offset"], len(plains[i])))]
         for i, p in enumerate(paths):
             r = random.Random(case.get("member_seed", 0) * 31 + i)
-            out[p] = fmt.compress(inp["containers"][i], gen.style_plain(case, plains[i]), rng=r, members=inp["members"][i])
+            out[p] = fmt.compress(".gz" if bam else inp["containers"][i], plains[i], rng=r, members=inp["members"][i])
     for f in fl:
         if f["kind"] not in BYTE_LEVEL:
             continue
